@@ -239,6 +239,30 @@ def size_bound_rule(chk, db_plain, table):
         chk.analysis_broken("SIZE: only %d size stores analysed (floor 10)" % n)
 
 
+def compare3_rule(chk, db):
+    """CMP3 (shared with C08): a whole-string compare member that does not simply forward to the view (it tests sizes or
+    calls traits compare itself) is evaluated over the nine (prefix order, size order) worlds: sign(prefix) if the common
+    prefix differs, else sign(size)."""
+    from . import c08 as _c08
+    n = 0
+    for f in db.funcs:
+        if f.get("record") != STRING or f["n"] != "compare" or f.get("body") is None or len(f["params"]) != 1:
+            continue
+        stmts = f["body"].get("s") or []
+        own = False
+        for x in astx.all_exprs(f):
+            if x.get("k") == "bin" and x["op"] in ("<", ">", "==", "!=", "<=", ">="):
+                if any(y.get("k") == "call" and astx.callee(y)[0] in ("size", "length") for y in astx.walk_expr(x)):
+                    own = True
+            if x.get("k") == "call" and astx.callee(x)[0] == "compare" and len(x["a"]) == 3:
+                own = True
+        if not own:
+            continue
+        n += 1
+        _c08.compare3_of(chk, f)
+    return n
+
+
 def same_name_delegation(chk, db):
     n = 0
     for f in db.funcs:
@@ -406,6 +430,8 @@ META = (META[0] + ' CLAMP direction; ERASECNT.', META[1])
 META = (META[0] + ' ROTINS; BOUND over the const members; RWINDOW.', META[1])
 META = (META[0] + ' IDXLOOP.', META[1])
 
+META = (META[0] + ' CMP3 (a compare member that tests sizes or calls traits compare itself is evaluated over the nine (prefix order, size order) worlds); WRAP (a position argument, which may be npos, is bounded before anything is added to it).', META[1])
+
 
 def run(chk, tier):
     db = D.load("checks")
@@ -435,6 +461,10 @@ def run(chk, tier):
     if chk.rule_instances.get("SLOTS-W", 0) < 4:
         chk.analysis_broken("SLOTS-W: only %d growing size stores found in basic_inplace_string (floor 4)" % chk.rule_instances.get("SLOTS-W", 0))
     same_name_delegation(chk, db)
+    compare3_rule(chk, db)
+    from ..rules import exits as _EXW
+    if _EXW.pos_wrap_area(chk, db, ['_string/', '_strings/', '_string_view/']) < 3:      # WRAP
+        chk.analysis_broken('WRAP: fewer than 3 members that add to a position argument (floor 3)')
     clamp_rule(chk, db)
     from . import c02 as _c02
     _c02.string_read_sites(chk, plain)      # BOUND: read-only members form pointers within [0, size()]
